@@ -26,8 +26,8 @@ def registry():
     return json.load(open(os.path.join(VERIF, "lib", "forms.json")))
 
 
-def relevant_forms(prop, reg):
-    forms = reg["forms"]
+def relevant_forms(prop, reg, tier="quick"):
+    forms = {f: v for f, v in reg["forms"].items() if tier == "thorough" or v.get("tier", "quick") == "quick"}
     if prop in ("C08", "C20", "C15"):
         return sorted(forms)
     return sorted(f for f, v in forms.items() if v["prop"] == prop)
@@ -46,16 +46,24 @@ def expected_ids(prop, form, home):
     return ids
 
 
-def run_step(rep, prop, forms=None, harness_timeout=900, skip_groups=()):
+def harness_names(prop, tier):
+    kani_run.prepare()
+    reg = registry()
+    forms = relevant_forms(prop, reg, tier)
+    return [KSTEP + g for g in sorted({reg["forms"][f]["group"] for f in forms})]
+
+
+def run_step(rep, prop, forms=None, harness_timeout=900, skip_groups=(), r=None):
     """runs the groups that contain the relevant forms and fills rep with their obligations"""
     kani_run.prepare()
     reg = registry()
-    forms = forms if forms is not None else relevant_forms(prop, reg)
+    forms = forms if forms is not None else relevant_forms(prop, reg, rep.tier)
     groups = sorted({reg["forms"][f]["group"] for f in forms} - set(skip_groups))
     log = os.path.join(kani_run.CACHE, "logs", "%s-step.log" % prop)
-    r = kani_run.run_harnesses([KSTEP + g for g in groups], harness_timeout=harness_timeout, log_path=log)
-    rep.cmds.append("(cd kani/crate && " + r["cmd"] + ")")
-    rep.logs.append(log)
+    if r is None:
+        r = kani_run.run_harnesses([KSTEP + g for g in groups], harness_timeout=harness_timeout, log_path=log)
+        rep.cmds.append("(cd kani/crate && " + r["cmd"] + ")")
+        rep.logs.append(log)
     if r["compile_error"]:
         rep.inconclusive.append("kani-compile-error (unsupported construct or lost anchor after a source edit); see " + log)
     fail_by_id = {}
@@ -124,6 +132,14 @@ def run_step(rep, prop, forms=None, harness_timeout=900, skip_groups=()):
         for g, fc in other:
             rep.notes.append("automatic check failed (belongs to C15): %s at %s:%d" % (fc["desc"], fc["file"], fc["line"]))
     rep.functions += sorted({reg["forms"][f]["call"] for f in forms})
+    for f in forms:
+        b = reg["forms"][f].get("bounded")
+        if b and b not in rep.bounds and prop == reg["forms"][f]["prop"]:
+            rep.bounds.append(b)
+        if reg["forms"][f].get("relax") and prop == reg["forms"][f]["prop"]:
+            n = "%s: quotient/remainder lanes left open by the oracle (flags, other registers, PC, cost exact over the full domain)" % f
+            if n not in rep.notes:
+                rep.notes.append(n)
     for t in STEP_TRUSTED:
         if t not in rep.trusted:
             rep.trusted.append(t)
